@@ -271,7 +271,8 @@ def joint_bfs(task):
     design = SEQ_DESIGNS[name]
     out = {"cov": {"programs": 0, "evaluations": 0, "disagreements_checked": 0, "states": 0, "transitions": 0}, "samples": [], "violations": []}
     warnings.simplefilter("ignore")
-    m, inputs, clocks, outputs = design()
+    m, inputs, clocks, outputs, *rest = design()
+    alphabet = rest[0] if rest else {}
     frag = elaborate(m)
     try:
         text = convert(frag, inputs + clocks + outputs)
@@ -283,7 +284,7 @@ def joint_bfs(task):
         return out
     out["cov"]["programs"] = 1
     sysm = System(frag, clocks=clocks, inputs=inputs, levels=True)
-    in_ranges = [range(1 << len(s)) for s in inputs]
+    in_ranges = [alphabet.get(s.name, range(1 << len(s))) for s in inputs]
     nclk = len(clocks)
     actions = [("in", vals) for vals in itertools.product(*in_ranges)] + [("clk", mask) for mask in range(1, 1 << nclk)]
 
@@ -396,14 +397,14 @@ def _two_domains():
     return m, [d, a.rst], [a.clk, b.clk], [ra, rb, split]
 
 
-def _memory(transparent=True, gran=None, comb_read=False, depth=3, hier=False, with_rst=False):
+def _memory(transparent=True, gran=None, comb_read=False, depth=3, hier=False, with_rst=False, width=2, alphabet=None):
     def build():
         from amaranth.hdl import Module, Signal, ClockDomain
         from amaranth.lib.memory import Memory
         m = Module()
         cd = ClockDomain("sync")
         m.domains.sync = cd
-        mem = Memory(shape=2, depth=depth, init=[1, 2])
+        mem = Memory(shape=width, depth=depth, init=[1, 2])
         m.submodules.mem = mem
         wp = mem.write_port(granularity=gran)
         if comb_read:
@@ -411,15 +412,17 @@ def _memory(transparent=True, gran=None, comb_read=False, depth=3, hier=False, w
         else:
             rp = mem.read_port(transparent_for=[wp] if transparent else [])
         waddr = Signal(len(wp.addr), name="waddr")
-        wdata = Signal(2, name="wdata")
+        wdata = Signal(width, name="wdata")
         wen = Signal(len(wp.en), name="wen")
         raddr = Signal(len(rp.addr), name="raddr")
         ren = Signal(name="ren")
-        rdata = Signal(2, name="rdata")
+        rdata = Signal(width, name="rdata")
         m.d.comb += [wp.addr.eq(waddr), wp.data.eq(wdata), wp.en.eq(wen), rp.addr.eq(raddr), rdata.eq(rp.data)]
         if not comb_read:
             m.d.comb += rp.en.eq(ren)
         ins = [waddr, wdata, wen, raddr] + ([] if comb_read else [ren]) + ([cd.rst] if with_rst else [])
+        if alphabet:
+            return m, ins, [cd.clk], [rdata], alphabet
         return m, ins, [cd.clk], [rdata]
     return build
 
@@ -477,11 +480,14 @@ SEQ_DESIGNS = {
     "counter-hier": _counter(hier=True), "two-domains": _two_domains,
     "mem-transparent": _memory(True), "mem-nontransparent": _memory(False), "mem-gran1": _memory(True, gran=1),
     "mem-combread": _memory(comb_read=True), "mem-depth4-rst": _memory(True, depth=4, with_rst=True),
+    # partial-row writes: granularity strictly between 1 and the row width (data alphabet reduced to lane-distinguishing values)
+    "mem-gran2-w4": _memory(True, gran=2, depth=2, width=4, alphabet={"wdata": [0b1111, 0b0110, 0b1001], "ren": [1]}),
+    "mem-gran2-w4-comb": _memory(comb_read=True, gran=2, depth=2, width=4, alphabet={"wdata": [0b1111, 0b0110]}),
     "syncfifo-2": _fifo("SyncFIFO", 2), "syncfifo-3": _fifo("SyncFIFO", 3), "syncfifobuf-3": _fifo("SyncFIFOBuffered", 3),
     "asyncfifo-2": _fifo("AsyncFIFO", 2), "ffsync": _cdc("ff"), "asyncffsync": _cdc("asyncff"), "pulsesync": _cdc("pulse"),
 }
 QUICK_SEQ = ["counter-pos", "counter-neg", "counter-arst", "counter-arst-neg", "counter-resetless", "counter-hier", "two-domains",
-             "mem-transparent", "mem-nontransparent", "mem-gran1", "mem-combread", "syncfifo-2", "syncfifobuf-3", "ffsync", "asyncffsync", "pulsesync"]
+             "mem-transparent", "mem-nontransparent", "mem-gran1", "mem-combread", "mem-gran2-w4", "mem-gran2-w4-comb", "syncfifo-2", "syncfifobuf-3", "ffsync", "asyncffsync", "pulsesync"]
 
 
 def _dispatch(t):
